@@ -10,6 +10,13 @@ Bits the manual writes `(0)` / `(1)` ("should be") are fixed bits here: any othe
 UNPREDICTABLE, i.e. not an encoding of anything.  A letter that occurs in several places of a diagram
 is one field whose bits are concatenated most significant first (`DN:Rdn` is written `d....ddd`).
 
+Every row also carries the *reading* of its diagram in arithmetic form, which is what `decode` evaluates
+and what the proofs use: `n` (number of bits), `fixed` (the maximal runs of fixed bits as
+`(position of the lowest bit, length, value)`) and `fields` (for every field letter its runs
+`(position, length)`, most significant run first).  `compile` computes this reading from a diagram string;
+`Props/C01.lean: table_reads_diagrams` (kernel-evaluated) says that every row's `n` / `fixed` / `fields`
+are exactly `compile` of its diagram, so the strings are checked, not just documentation.
+
 `Arm.decode hws` = the first row (in table order; the manual's "SEE …" exclusions are expressed by
 putting the more specific diagram first) whose diagram has `16 * hws.length` bits and whose fixed bits
 agree; the result is `none` when no row matches or the matching row's side condition says UNPREDICTABLE.
@@ -28,37 +35,84 @@ Readings fixed by the design (DESIGN §6 C01):
 namespace Trion.Arm
 open Trion
 
-/-- the bit of `w` at position `p` -/
-def bit (w p : Nat) : Nat := w / 2 ^ p % 2
-
-/-- do the fixed bits of the diagram agree with the `n` low bits of `w`? (`cs` = remaining characters,
-`n` = number of bits they cover) -/
-def fits (w : Nat) : List Char → Nat → Bool
-  | [], _ => true
-  | c :: cs, n =>
-    if c = ' ' then fits w cs n
-    else if c = '0' then bit w (n - 1) == 0 && fits w cs (n - 1)
-    else if c = '1' then bit w (n - 1) == 1 && fits w cs (n - 1)
-    else fits w cs (n - 1)
-
-/-- value of field `f`: its bits, most significant first -/
-def field (w : Nat) (f : Char) : List Char → Nat → Nat → Nat
-  | [], _, acc => acc
-  | c :: cs, n, acc =>
-    if c = ' ' then field w f cs n acc
-    else if c = f then field w f cs (n - 1) (acc * 2 + bit w (n - 1))
-    else field w f cs (n - 1) acc
-
-/-- number of bits of a diagram -/
-def width (cs : List Char) : Nat := (cs.filter (· ≠ ' ')).length
-
 structure Row where
-  /-- encoding diagram -/
+  /-- encoding diagram as printed in the manual -/
   pat : String
+  /-- number of bits of the diagram -/
+  n : Nat
+  /-- runs of fixed bits: (position of the lowest bit, length, value) -/
+  fixed : List (Nat × Nat × Nat)
+  /-- field letter ↦ its runs (position of the lowest bit, length), most significant run first -/
+  fields : List (Char × List (Nat × Nat))
   /-- operands from the fields (`f 'd'` is the value of field `d`) -/
   ins : (Char → Nat) → Instr
   /-- UNPREDICTABLE side conditions -/
   unpred : (Char → Nat) → Bool := fun _ => false
+
+/-! ### reading a diagram -/
+
+/-- state while scanning a diagram from its most significant character: the current run
+(`'#'` for fixed bits, else the field letter; length; value of the fixed bits) and the runs found so far -/
+structure Scan where
+  cur : Option (Char × Nat × Nat) := none
+  fixed : List (Nat × Nat × Nat) := []
+  fields : List (Char × List (Nat × Nat)) := []
+
+def addRun (c : Char) (seg : Nat × Nat) : List (Char × List (Nat × Nat)) → List (Char × List (Nat × Nat))
+  | [] => [(c, [seg])]
+  | (c', segs) :: rest => if c' = c then (c', segs ++ [seg]) :: rest else (c', segs) :: addRun c seg rest
+
+/-- close the current run, whose lowest bit is at position `pos` -/
+def Scan.flush (s : Scan) (pos : Nat) : Scan :=
+  match s.cur with
+  | none => s
+  | some (k, l, v) =>
+    if k = '#' then { cur := none, fixed := s.fixed ++ [(pos, l, v)], fields := s.fields }
+    else { cur := none, fixed := s.fixed, fields := addRun k (pos, l) s.fields }
+
+/-- one character at bit position `p` -/
+def Scan.step (s : Scan) (c : Char) (p : Nat) : Scan :=
+  let k := if c = '0' ∨ c = '1' then '#' else c
+  let b := if c = '1' then 1 else 0
+  match s.cur with
+  | some (k', l, v) =>
+    if k' = k then { s with cur := some (k, l + 1, v * 2 + b) }
+    else { s.flush (p + 1) with cur := some (k, 1, b) }
+  | none => { s with cur := some (k, 1, b) }
+
+def scan : List Char → Nat → Scan → Scan
+  | [], _, s => s.flush 0
+  | c :: cs, p, s => scan cs (p - 1) (s.step c p)
+
+/-- the arithmetic reading `(n, fixed, fields)` of a diagram (blanks are ignored) -/
+def compile (pat : List Char) : Nat × List (Nat × Nat × Nat) × List (Char × List (Nat × Nat)) :=
+  let cs := pat.filter (· ≠ ' ')
+  let s := scan cs (cs.length - 1) {}
+  (cs.length, s.fixed, s.fields)
+
+/-! ### matching -/
+
+/-- do the fixed bits of the row agree with the word? -/
+def fits (w : Nat) : List (Nat × Nat × Nat) → Prop
+  | [] => True
+  | (p, l, v) :: rest => w / 2 ^ p % 2 ^ l = v ∧ fits w rest
+
+instance fitsDec (w : Nat) : (fx : List (Nat × Nat × Nat)) → Decidable (fits w fx)
+  | [] => isTrue trivial
+  | (p, l, v) :: rest =>
+    match Nat.decEq (w / 2 ^ p % 2 ^ l) v, fitsDec w rest with
+    | isTrue a, isTrue b => isTrue ⟨a, b⟩
+    | isFalse a, _ => isFalse fun h => a h.1
+    | _, isFalse b => isFalse fun h => b h.2
+
+/-- value of a field: its runs concatenated, most significant first -/
+def segVal (w : Nat) : List (Nat × Nat) → Nat → Nat
+  | [], acc => acc
+  | (p, l) :: rest, acc => segVal w rest (acc * 2 ^ l + w / 2 ^ p % 2 ^ l)
+
+def fieldOf (w : Nat) : List (Char × List (Nat × Nat)) → Char → Nat
+  | [], _ => 0
+  | (c', segs) :: rest, c => if c' = c then segVal w segs 0 else fieldOf w rest c
 
 def r (n : Nat) : Reg := Fin.ofNat 16 n
 def im (n : Nat) : ImmReg := .imm (n : Int)
@@ -78,109 +132,325 @@ def cond (n : Nat) : Cond := Fin.ofNat 15 n
 /-- NOT (J XOR S) -/
 def ibit (j s : Nat) : Nat := if j = s then 1 else 0
 
-def table : List Row := [
-  -- shift (immediate), add, subtract, move, compare                                      A5.2.1
-  { pat := "0000000000mmmddd", ins := fun f => .mov true (r (f 'd')) (rg (f 'm')) },            -- MOVS Rd,Rm (T2)
-  { pat := "00000iiiiimmmddd", ins := fun f => .lsl (r (f 'd')) (r (f 'm')) (im (f 'i')) },     -- LSLS Rd,Rm,#imm5
-  { pat := "00001iiiiimmmddd", ins := fun f => .lsr (r (f 'd')) (r (f 'm')) (im (sh32 (f 'i'))) },
-  { pat := "00010iiiiimmmddd", ins := fun f => .asr (r (f 'd')) (r (f 'm')) (im (sh32 (f 'i'))) },
-  { pat := "0001100mmmnnnddd", ins := fun f => .add true (r (f 'd')) (r (f 'n')) (rg (f 'm')) }, -- ADDS Rd,Rn,Rm (T1)
-  { pat := "0001101mmmnnnddd", ins := fun f => .sub true (r (f 'd')) (r (f 'n')) (rg (f 'm')) },
-  { pat := "0001110iiinnnddd", ins := fun f => .add true (r (f 'd')) (r (f 'n')) (im (f 'i')) }, -- ADDS Rd,Rn,#imm3 (T1)
-  { pat := "0001111iiinnnddd", ins := fun f => .sub true (r (f 'd')) (r (f 'n')) (im (f 'i')) },
-  { pat := "00100dddiiiiiiii", ins := fun f => .mov true (r (f 'd')) (im (f 'i')) },            -- MOVS Rd,#imm8
-  { pat := "00101nnniiiiiiii", ins := fun f => .cmp (r (f 'n')) (im (f 'i')) },                 -- CMP Rn,#imm8
-  { pat := "00110dddiiiiiiii", ins := fun f => .add true (r (f 'd')) (r (f 'd')) (im (f 'i')) }, -- ADDS Rdn,#imm8 (T2)
-  { pat := "00111dddiiiiiiii", ins := fun f => .sub true (r (f 'd')) (r (f 'd')) (im (f 'i')) },
-  -- data processing                                                                       A5.2.2
-  { pat := "0100000000mmmddd", ins := fun f => .and (r (f 'd')) (r (f 'm')) },
-  { pat := "0100000001mmmddd", ins := fun f => .eor (r (f 'd')) (r (f 'm')) },
-  { pat := "0100000010mmmddd", ins := fun f => .lsl (r (f 'd')) (r (f 'd')) (rg (f 'm')) },
-  { pat := "0100000011mmmddd", ins := fun f => .lsr (r (f 'd')) (r (f 'd')) (rg (f 'm')) },
-  { pat := "0100000100mmmddd", ins := fun f => .asr (r (f 'd')) (r (f 'd')) (rg (f 'm')) },
-  { pat := "0100000101mmmddd", ins := fun f => .adc (r (f 'd')) (r (f 'm')) },
-  { pat := "0100000110mmmddd", ins := fun f => .sbc (r (f 'd')) (r (f 'm')) },
-  { pat := "0100000111mmmddd", ins := fun f => .ror (r (f 'd')) (r (f 'm')) },
-  { pat := "0100001000mmmnnn", ins := fun f => .tst (r (f 'n')) (r (f 'm')) },
-  { pat := "0100001001nnnddd", ins := fun f => .rsb (r (f 'd')) (r (f 'n')) },                  -- RSBS Rd,Rn,#0
-  { pat := "0100001010mmmnnn", ins := fun f => .cmp (r (f 'n')) (rg (f 'm')) },                 -- CMP Rn,Rm (T1)
-  { pat := "0100001011mmmnnn", ins := fun f => .cmn (r (f 'n')) (r (f 'm')) },
-  { pat := "0100001100mmmddd", ins := fun f => .orr (r (f 'd')) (r (f 'm')) },
-  { pat := "0100001101nnnddd", ins := fun f => .mul (r (f 'd')) (r (f 'n')) },                  -- MULS Rdm,Rn,Rdm
-  { pat := "0100001110mmmddd", ins := fun f => .bic (r (f 'd')) (r (f 'm')) },
-  { pat := "0100001111mmmddd", ins := fun f => .mvn (r (f 'd')) (r (f 'm')) },
-  -- special data instructions and branch and exchange                                     A5.2.3
-  { pat := "01000100dmmmmddd", ins := fun f => .add false (r (f 'd')) (r (f 'd')) (rg (f 'm')),  -- ADD Rdn,Rm (T2), incl. SP forms
-    unpred := fun f => f 'd' == 15 && f 'm' == 15 },
-  { pat := "01000101nmmmmnnn", ins := fun f => .cmp (r (f 'n')) (rg (f 'm')),                   -- CMP Rn,Rm (T2)
-    unpred := fun f => (f 'n' < 8 && f 'm' < 8) || f 'n' == 15 || f 'm' == 15 },
-  { pat := "01000110dmmmmddd", ins := fun f => .mov false (r (f 'd')) (rg (f 'm')) },           -- MOV Rd,Rm (T1)
-  { pat := "010001110mmmm000", ins := fun f => .bx (r (f 'm')), unpred := fun f => f 'm' == 15 },
-  { pat := "010001111mmmm000", ins := fun f => .blx (r (f 'm')), unpred := fun f => f 'm' == 15 },
-  -- load from literal pool                                                                A6.7.27
-  { pat := "01001tttiiiiiiii", ins := fun f => .ldr (r (f 't')) Reg.pc (im (f 'i' * 4)) },
-  -- load/store single data item                                                           A5.2.4
-  { pat := "0101000mmmnnnttt", ins := fun f => .str (r (f 't')) (r (f 'n')) (rg (f 'm')) },
-  { pat := "0101001mmmnnnttt", ins := fun f => .strh (r (f 't')) (r (f 'n')) (rg (f 'm')) },
-  { pat := "0101010mmmnnnttt", ins := fun f => .strb (r (f 't')) (r (f 'n')) (rg (f 'm')) },
-  { pat := "0101011mmmnnnttt", ins := fun f => .ldrsb (r (f 't')) (r (f 'n')) (r (f 'm')) },
-  { pat := "0101100mmmnnnttt", ins := fun f => .ldr (r (f 't')) (r (f 'n')) (rg (f 'm')) },
-  { pat := "0101101mmmnnnttt", ins := fun f => .ldrh (r (f 't')) (r (f 'n')) (rg (f 'm')) },
-  { pat := "0101110mmmnnnttt", ins := fun f => .ldrb (r (f 't')) (r (f 'n')) (rg (f 'm')) },
-  { pat := "0101111mmmnnnttt", ins := fun f => .ldrsh (r (f 't')) (r (f 'n')) (r (f 'm')) },
-  { pat := "01100iiiiinnnttt", ins := fun f => .str (r (f 't')) (r (f 'n')) (im (f 'i' * 4)) },
-  { pat := "01101iiiiinnnttt", ins := fun f => .ldr (r (f 't')) (r (f 'n')) (im (f 'i' * 4)) },
-  { pat := "01110iiiiinnnttt", ins := fun f => .strb (r (f 't')) (r (f 'n')) (im (f 'i')) },
-  { pat := "01111iiiiinnnttt", ins := fun f => .ldrb (r (f 't')) (r (f 'n')) (im (f 'i')) },
-  { pat := "10000iiiiinnnttt", ins := fun f => .strh (r (f 't')) (r (f 'n')) (im (f 'i' * 2)) },
-  { pat := "10001iiiiinnnttt", ins := fun f => .ldrh (r (f 't')) (r (f 'n')) (im (f 'i' * 2)) },
-  { pat := "10010tttiiiiiiii", ins := fun f => .str (r (f 't')) Reg.sp (im (f 'i' * 4)) },
-  { pat := "10011tttiiiiiiii", ins := fun f => .ldr (r (f 't')) Reg.sp (im (f 'i' * 4)) },
-  -- PC-relative and SP-relative address                                                   A6.7.6, A6.7.4
-  { pat := "10100dddiiiiiiii", ins := fun f => .adr (r (f 'd')) ((f 'i' * 4 : Nat) : Int) },
-  { pat := "10101dddiiiiiiii", ins := fun f => .add false (r (f 'd')) Reg.sp (im (f 'i' * 4)) },
-  -- miscellaneous 16-bit instructions                                                     A5.2.5
-  { pat := "101100000iiiiiii", ins := fun f => .add false Reg.sp Reg.sp (im (f 'i' * 4)) },
-  { pat := "101100001iiiiiii", ins := fun f => .sub false Reg.sp Reg.sp (im (f 'i' * 4)) },
-  { pat := "1011001000mmmddd", ins := fun f => .sxth (r (f 'd')) (r (f 'm')) },
-  { pat := "1011001001mmmddd", ins := fun f => .sxtb (r (f 'd')) (r (f 'm')) },
-  { pat := "1011001010mmmddd", ins := fun f => .uxth (r (f 'd')) (r (f 'm')) },
-  { pat := "1011001011mmmddd", ins := fun f => .uxtb (r (f 'd')) (r (f 'm')) },
-  { pat := "1011010mrrrrrrrr", ins := fun f => .push (set (f 'm' * 16384 + f 'r')),            -- registers = '0':M:'000000':list
-    unpred := fun f => f 'm' * 16384 + f 'r' == 0 },
-  { pat := "10110110011i0010", ins := fun f => .cps (f 'i' == 0) },                             -- CPSIE i: im = 0, CPSID i: im = 1
-  { pat := "1011101000mmmddd", ins := fun f => .rev (r (f 'd')) (r (f 'm')) },
-  { pat := "1011101001mmmddd", ins := fun f => .rev16 (r (f 'd')) (r (f 'm')) },
-  { pat := "1011101011mmmddd", ins := fun f => .revsh (r (f 'd')) (r (f 'm')) },
-  { pat := "1011110prrrrrrrr", ins := fun f => .pop (set (f 'p' * 32768 + f 'r')),             -- registers = P:'0000000':list
-    unpred := fun f => f 'p' * 32768 + f 'r' == 0 },
-  { pat := "10111110iiiiiiii", ins := fun f => .bkpt (f 'i' : Nat) },
-  { pat := "1011111100000000", ins := fun _ => .nop },
-  { pat := "1011111100010000", ins := fun _ => .yield },
-  { pat := "1011111100100000", ins := fun _ => .wfe },
-  { pat := "1011111100110000", ins := fun _ => .wfi },
-  { pat := "1011111101000000", ins := fun _ => .sev },
-  -- load/store multiple                                                                   A6.7.25, A6.7.58
-  { pat := "11000nnnrrrrrrrr", ins := fun f => .stm (r (f 'n')) (set (f 'r')) },
-  { pat := "11001nnnrrrrrrrr", ins := fun f => .ldm (r (f 'n')) (set (f 'r')) },
-  -- conditional branch, permanently undefined, supervisor call                            A5.2.6
-  { pat := "11011110iiiiiiii", ins := fun f => .udf (f 'i' : Nat) },
-  { pat := "11011111iiiiiiii", ins := fun f => .svc (f 'i' : Nat) },
-  { pat := "1101cccciiiiiiii", ins := fun f => .b (cond (f 'c')) (sx 9 (f 'i' * 2)) },          -- B<c> (T1); cond 1110/1111 are the rows above
-  { pat := "11100iiiiiiiiiii", ins := fun f => .b Cond.always (sx 12 (f 'i' * 2)) },            -- B (T2)
-  -- 32-bit instructions                                                                   A5.3
-  { pat := "111100111000nnnn 10001000ssssssss", ins := fun f => .msr (sys (f 's')) (r (f 'n')),
-    unpred := fun f => f 'n' == 13 || f 'n' == 15 || (sysm (f 's')).isNone },
-  { pat := "1111001111101111 1000ddddssssssss", ins := fun f => .mrs (r (f 'd')) (sys (f 's')),
-    unpred := fun f => f 'd' == 13 || f 'd' == 15 || (sysm (f 's')).isNone },
-  { pat := "1111001110111111 1000111101001111", ins := fun _ => .dsb },                          -- option = SY
-  { pat := "1111001110111111 1000111101011111", ins := fun _ => .dmb },
-  { pat := "1111001110111111 1000111101101111", ins := fun _ => .isb },
-  { pat := "111101111111iiii 1010iiiiiiiiiiii", ins := fun f => .udfw (f 'i' : Nat) },           -- imm32 = imm4:imm12
-  { pat := "11110siiiiiiiiii 11j1kLLLLLLLLLLL",                                                 -- BL: S:I1:I2:imm10:imm11:'0'
-    ins := fun f => .bl (sx 25 (f 's' * 16777216 + ibit (f 'j') (f 's') * 8388608 + ibit (f 'k') (f 's') * 4194304
-                              + f 'i' * 4096 + f 'L' * 2)) }
+/-- first halfword `00000…` -/
+def g00 : List Row := [
+  -- MOVS Rd,Rm (T2)
+  { pat := "0000000000mmmddd", n := 16, fixed := [(6, 10, 0b0000000000)], fields := [('m', [(3, 3)]), ('d', [(0, 3)])],
+    ins := fun f => .mov true (r (f 'd')) (rg (f 'm')) },
+  -- LSLS Rd,Rm,#imm5
+  { pat := "00000iiiiimmmddd", n := 16, fixed := [(11, 5, 0b00000)], fields := [('i', [(6, 5)]), ('m', [(3, 3)]), ('d', [(0, 3)])],
+    ins := fun f => .lsl (r (f 'd')) (r (f 'm')) (im (f 'i')) }
 ]
+
+/-- first halfword `00001…` -/
+def g01 : List Row := [
+  { pat := "00001iiiiimmmddd", n := 16, fixed := [(11, 5, 0b00001)], fields := [('i', [(6, 5)]), ('m', [(3, 3)]), ('d', [(0, 3)])],
+    ins := fun f => .lsr (r (f 'd')) (r (f 'm')) (im (sh32 (f 'i'))) }
+]
+
+/-- first halfword `00010…` -/
+def g02 : List Row := [
+  { pat := "00010iiiiimmmddd", n := 16, fixed := [(11, 5, 0b00010)], fields := [('i', [(6, 5)]), ('m', [(3, 3)]), ('d', [(0, 3)])],
+    ins := fun f => .asr (r (f 'd')) (r (f 'm')) (im (sh32 (f 'i'))) }
+]
+
+/-- first halfword `00011…` -/
+def g03 : List Row := [
+  -- ADDS Rd,Rn,Rm (T1)
+  { pat := "0001100mmmnnnddd", n := 16, fixed := [(9, 7, 0b0001100)], fields := [('m', [(6, 3)]), ('n', [(3, 3)]), ('d', [(0, 3)])],
+    ins := fun f => .add true (r (f 'd')) (r (f 'n')) (rg (f 'm')) },
+  { pat := "0001101mmmnnnddd", n := 16, fixed := [(9, 7, 0b0001101)], fields := [('m', [(6, 3)]), ('n', [(3, 3)]), ('d', [(0, 3)])],
+    ins := fun f => .sub true (r (f 'd')) (r (f 'n')) (rg (f 'm')) },
+  -- ADDS Rd,Rn,#imm3 (T1)
+  { pat := "0001110iiinnnddd", n := 16, fixed := [(9, 7, 0b0001110)], fields := [('i', [(6, 3)]), ('n', [(3, 3)]), ('d', [(0, 3)])],
+    ins := fun f => .add true (r (f 'd')) (r (f 'n')) (im (f 'i')) },
+  { pat := "0001111iiinnnddd", n := 16, fixed := [(9, 7, 0b0001111)], fields := [('i', [(6, 3)]), ('n', [(3, 3)]), ('d', [(0, 3)])],
+    ins := fun f => .sub true (r (f 'd')) (r (f 'n')) (im (f 'i')) }
+]
+
+/-- first halfword `00100…` -/
+def g04 : List Row := [
+  -- MOVS Rd,#imm8
+  { pat := "00100dddiiiiiiii", n := 16, fixed := [(11, 5, 0b00100)], fields := [('d', [(8, 3)]), ('i', [(0, 8)])],
+    ins := fun f => .mov true (r (f 'd')) (im (f 'i')) }
+]
+
+/-- first halfword `00101…` -/
+def g05 : List Row := [
+  -- CMP Rn,#imm8
+  { pat := "00101nnniiiiiiii", n := 16, fixed := [(11, 5, 0b00101)], fields := [('n', [(8, 3)]), ('i', [(0, 8)])],
+    ins := fun f => .cmp (r (f 'n')) (im (f 'i')) }
+]
+
+/-- first halfword `00110…` -/
+def g06 : List Row := [
+  -- ADDS Rdn,#imm8 (T2)
+  { pat := "00110dddiiiiiiii", n := 16, fixed := [(11, 5, 0b00110)], fields := [('d', [(8, 3)]), ('i', [(0, 8)])],
+    ins := fun f => .add true (r (f 'd')) (r (f 'd')) (im (f 'i')) }
+]
+
+/-- first halfword `00111…` -/
+def g07 : List Row := [
+  { pat := "00111dddiiiiiiii", n := 16, fixed := [(11, 5, 0b00111)], fields := [('d', [(8, 3)]), ('i', [(0, 8)])],
+    ins := fun f => .sub true (r (f 'd')) (r (f 'd')) (im (f 'i')) }
+]
+
+/-- first halfword `01000…` -/
+def g08 : List Row := [
+  { pat := "0100000000mmmddd", n := 16, fixed := [(6, 10, 0b0100000000)], fields := [('m', [(3, 3)]), ('d', [(0, 3)])],
+    ins := fun f => .and (r (f 'd')) (r (f 'm')) },
+  { pat := "0100000001mmmddd", n := 16, fixed := [(6, 10, 0b0100000001)], fields := [('m', [(3, 3)]), ('d', [(0, 3)])],
+    ins := fun f => .eor (r (f 'd')) (r (f 'm')) },
+  { pat := "0100000010mmmddd", n := 16, fixed := [(6, 10, 0b0100000010)], fields := [('m', [(3, 3)]), ('d', [(0, 3)])],
+    ins := fun f => .lsl (r (f 'd')) (r (f 'd')) (rg (f 'm')) },
+  { pat := "0100000011mmmddd", n := 16, fixed := [(6, 10, 0b0100000011)], fields := [('m', [(3, 3)]), ('d', [(0, 3)])],
+    ins := fun f => .lsr (r (f 'd')) (r (f 'd')) (rg (f 'm')) },
+  { pat := "0100000100mmmddd", n := 16, fixed := [(6, 10, 0b0100000100)], fields := [('m', [(3, 3)]), ('d', [(0, 3)])],
+    ins := fun f => .asr (r (f 'd')) (r (f 'd')) (rg (f 'm')) },
+  { pat := "0100000101mmmddd", n := 16, fixed := [(6, 10, 0b0100000101)], fields := [('m', [(3, 3)]), ('d', [(0, 3)])],
+    ins := fun f => .adc (r (f 'd')) (r (f 'm')) },
+  { pat := "0100000110mmmddd", n := 16, fixed := [(6, 10, 0b0100000110)], fields := [('m', [(3, 3)]), ('d', [(0, 3)])],
+    ins := fun f => .sbc (r (f 'd')) (r (f 'm')) },
+  { pat := "0100000111mmmddd", n := 16, fixed := [(6, 10, 0b0100000111)], fields := [('m', [(3, 3)]), ('d', [(0, 3)])],
+    ins := fun f => .ror (r (f 'd')) (r (f 'm')) },
+  { pat := "0100001000mmmnnn", n := 16, fixed := [(6, 10, 0b0100001000)], fields := [('m', [(3, 3)]), ('n', [(0, 3)])],
+    ins := fun f => .tst (r (f 'n')) (r (f 'm')) },
+  -- RSBS Rd,Rn,#0
+  { pat := "0100001001nnnddd", n := 16, fixed := [(6, 10, 0b0100001001)], fields := [('n', [(3, 3)]), ('d', [(0, 3)])],
+    ins := fun f => .rsb (r (f 'd')) (r (f 'n')) },
+  -- CMP Rn,Rm (T1)
+  { pat := "0100001010mmmnnn", n := 16, fixed := [(6, 10, 0b0100001010)], fields := [('m', [(3, 3)]), ('n', [(0, 3)])],
+    ins := fun f => .cmp (r (f 'n')) (rg (f 'm')) },
+  { pat := "0100001011mmmnnn", n := 16, fixed := [(6, 10, 0b0100001011)], fields := [('m', [(3, 3)]), ('n', [(0, 3)])],
+    ins := fun f => .cmn (r (f 'n')) (r (f 'm')) },
+  { pat := "0100001100mmmddd", n := 16, fixed := [(6, 10, 0b0100001100)], fields := [('m', [(3, 3)]), ('d', [(0, 3)])],
+    ins := fun f => .orr (r (f 'd')) (r (f 'm')) },
+  -- MULS Rdm,Rn,Rdm
+  { pat := "0100001101nnnddd", n := 16, fixed := [(6, 10, 0b0100001101)], fields := [('n', [(3, 3)]), ('d', [(0, 3)])],
+    ins := fun f => .mul (r (f 'd')) (r (f 'n')) },
+  { pat := "0100001110mmmddd", n := 16, fixed := [(6, 10, 0b0100001110)], fields := [('m', [(3, 3)]), ('d', [(0, 3)])],
+    ins := fun f => .bic (r (f 'd')) (r (f 'm')) },
+  { pat := "0100001111mmmddd", n := 16, fixed := [(6, 10, 0b0100001111)], fields := [('m', [(3, 3)]), ('d', [(0, 3)])],
+    ins := fun f => .mvn (r (f 'd')) (r (f 'm')) },
+  -- ADD Rdn,Rm (T2), incl. SP forms
+  { pat := "01000100dmmmmddd", n := 16, fixed := [(8, 8, 0b01000100)], fields := [('d', [(7, 1), (0, 3)]), ('m', [(3, 4)])],
+    ins := fun f => .add false (r (f 'd')) (r (f 'd')) (rg (f 'm')),
+    unpred := fun f => f 'd' == 15 && f 'm' == 15 },
+  -- CMP Rn,Rm (T2)
+  { pat := "01000101nmmmmnnn", n := 16, fixed := [(8, 8, 0b01000101)], fields := [('n', [(7, 1), (0, 3)]), ('m', [(3, 4)])],
+    ins := fun f => .cmp (r (f 'n')) (rg (f 'm')),
+    unpred := fun f => (f 'n' < 8 && f 'm' < 8) || f 'n' == 15 || f 'm' == 15 },
+  -- MOV Rd,Rm (T1)
+  { pat := "01000110dmmmmddd", n := 16, fixed := [(8, 8, 0b01000110)], fields := [('d', [(7, 1), (0, 3)]), ('m', [(3, 4)])],
+    ins := fun f => .mov false (r (f 'd')) (rg (f 'm')) },
+  { pat := "010001110mmmm000", n := 16, fixed := [(7, 9, 0b010001110), (0, 3, 0b000)], fields := [('m', [(3, 4)])],
+    ins := fun f => .bx (r (f 'm')),
+    unpred := fun f => f 'm' == 15 },
+  { pat := "010001111mmmm000", n := 16, fixed := [(7, 9, 0b010001111), (0, 3, 0b000)], fields := [('m', [(3, 4)])],
+    ins := fun f => .blx (r (f 'm')),
+    unpred := fun f => f 'm' == 15 }
+]
+
+/-- first halfword `01001…` -/
+def g09 : List Row := [
+  { pat := "01001tttiiiiiiii", n := 16, fixed := [(11, 5, 0b01001)], fields := [('t', [(8, 3)]), ('i', [(0, 8)])],
+    ins := fun f => .ldr (r (f 't')) Reg.pc (im (f 'i' * 4)) }
+]
+
+/-- first halfword `01010…` -/
+def g10 : List Row := [
+  { pat := "0101000mmmnnnttt", n := 16, fixed := [(9, 7, 0b0101000)], fields := [('m', [(6, 3)]), ('n', [(3, 3)]), ('t', [(0, 3)])],
+    ins := fun f => .str (r (f 't')) (r (f 'n')) (rg (f 'm')) },
+  { pat := "0101001mmmnnnttt", n := 16, fixed := [(9, 7, 0b0101001)], fields := [('m', [(6, 3)]), ('n', [(3, 3)]), ('t', [(0, 3)])],
+    ins := fun f => .strh (r (f 't')) (r (f 'n')) (rg (f 'm')) },
+  { pat := "0101010mmmnnnttt", n := 16, fixed := [(9, 7, 0b0101010)], fields := [('m', [(6, 3)]), ('n', [(3, 3)]), ('t', [(0, 3)])],
+    ins := fun f => .strb (r (f 't')) (r (f 'n')) (rg (f 'm')) },
+  { pat := "0101011mmmnnnttt", n := 16, fixed := [(9, 7, 0b0101011)], fields := [('m', [(6, 3)]), ('n', [(3, 3)]), ('t', [(0, 3)])],
+    ins := fun f => .ldrsb (r (f 't')) (r (f 'n')) (r (f 'm')) }
+]
+
+/-- first halfword `01011…` -/
+def g11 : List Row := [
+  { pat := "0101100mmmnnnttt", n := 16, fixed := [(9, 7, 0b0101100)], fields := [('m', [(6, 3)]), ('n', [(3, 3)]), ('t', [(0, 3)])],
+    ins := fun f => .ldr (r (f 't')) (r (f 'n')) (rg (f 'm')) },
+  { pat := "0101101mmmnnnttt", n := 16, fixed := [(9, 7, 0b0101101)], fields := [('m', [(6, 3)]), ('n', [(3, 3)]), ('t', [(0, 3)])],
+    ins := fun f => .ldrh (r (f 't')) (r (f 'n')) (rg (f 'm')) },
+  { pat := "0101110mmmnnnttt", n := 16, fixed := [(9, 7, 0b0101110)], fields := [('m', [(6, 3)]), ('n', [(3, 3)]), ('t', [(0, 3)])],
+    ins := fun f => .ldrb (r (f 't')) (r (f 'n')) (rg (f 'm')) },
+  { pat := "0101111mmmnnnttt", n := 16, fixed := [(9, 7, 0b0101111)], fields := [('m', [(6, 3)]), ('n', [(3, 3)]), ('t', [(0, 3)])],
+    ins := fun f => .ldrsh (r (f 't')) (r (f 'n')) (r (f 'm')) }
+]
+
+/-- first halfword `01100…` -/
+def g12 : List Row := [
+  { pat := "01100iiiiinnnttt", n := 16, fixed := [(11, 5, 0b01100)], fields := [('i', [(6, 5)]), ('n', [(3, 3)]), ('t', [(0, 3)])],
+    ins := fun f => .str (r (f 't')) (r (f 'n')) (im (f 'i' * 4)) }
+]
+
+/-- first halfword `01101…` -/
+def g13 : List Row := [
+  { pat := "01101iiiiinnnttt", n := 16, fixed := [(11, 5, 0b01101)], fields := [('i', [(6, 5)]), ('n', [(3, 3)]), ('t', [(0, 3)])],
+    ins := fun f => .ldr (r (f 't')) (r (f 'n')) (im (f 'i' * 4)) }
+]
+
+/-- first halfword `01110…` -/
+def g14 : List Row := [
+  { pat := "01110iiiiinnnttt", n := 16, fixed := [(11, 5, 0b01110)], fields := [('i', [(6, 5)]), ('n', [(3, 3)]), ('t', [(0, 3)])],
+    ins := fun f => .strb (r (f 't')) (r (f 'n')) (im (f 'i')) }
+]
+
+/-- first halfword `01111…` -/
+def g15 : List Row := [
+  { pat := "01111iiiiinnnttt", n := 16, fixed := [(11, 5, 0b01111)], fields := [('i', [(6, 5)]), ('n', [(3, 3)]), ('t', [(0, 3)])],
+    ins := fun f => .ldrb (r (f 't')) (r (f 'n')) (im (f 'i')) }
+]
+
+/-- first halfword `10000…` -/
+def g16 : List Row := [
+  { pat := "10000iiiiinnnttt", n := 16, fixed := [(11, 5, 0b10000)], fields := [('i', [(6, 5)]), ('n', [(3, 3)]), ('t', [(0, 3)])],
+    ins := fun f => .strh (r (f 't')) (r (f 'n')) (im (f 'i' * 2)) }
+]
+
+/-- first halfword `10001…` -/
+def g17 : List Row := [
+  { pat := "10001iiiiinnnttt", n := 16, fixed := [(11, 5, 0b10001)], fields := [('i', [(6, 5)]), ('n', [(3, 3)]), ('t', [(0, 3)])],
+    ins := fun f => .ldrh (r (f 't')) (r (f 'n')) (im (f 'i' * 2)) }
+]
+
+/-- first halfword `10010…` -/
+def g18 : List Row := [
+  { pat := "10010tttiiiiiiii", n := 16, fixed := [(11, 5, 0b10010)], fields := [('t', [(8, 3)]), ('i', [(0, 8)])],
+    ins := fun f => .str (r (f 't')) Reg.sp (im (f 'i' * 4)) }
+]
+
+/-- first halfword `10011…` -/
+def g19 : List Row := [
+  { pat := "10011tttiiiiiiii", n := 16, fixed := [(11, 5, 0b10011)], fields := [('t', [(8, 3)]), ('i', [(0, 8)])],
+    ins := fun f => .ldr (r (f 't')) Reg.sp (im (f 'i' * 4)) }
+]
+
+/-- first halfword `10100…` -/
+def g20 : List Row := [
+  { pat := "10100dddiiiiiiii", n := 16, fixed := [(11, 5, 0b10100)], fields := [('d', [(8, 3)]), ('i', [(0, 8)])],
+    ins := fun f => .adr (r (f 'd')) ((f 'i' * 4 : Nat) : Int) }
+]
+
+/-- first halfword `10101…` -/
+def g21 : List Row := [
+  { pat := "10101dddiiiiiiii", n := 16, fixed := [(11, 5, 0b10101)], fields := [('d', [(8, 3)]), ('i', [(0, 8)])],
+    ins := fun f => .add false (r (f 'd')) Reg.sp (im (f 'i' * 4)) }
+]
+
+/-- first halfword `10110…` -/
+def g22 : List Row := [
+  { pat := "101100000iiiiiii", n := 16, fixed := [(7, 9, 0b101100000)], fields := [('i', [(0, 7)])],
+    ins := fun f => .add false Reg.sp Reg.sp (im (f 'i' * 4)) },
+  { pat := "101100001iiiiiii", n := 16, fixed := [(7, 9, 0b101100001)], fields := [('i', [(0, 7)])],
+    ins := fun f => .sub false Reg.sp Reg.sp (im (f 'i' * 4)) },
+  { pat := "1011001000mmmddd", n := 16, fixed := [(6, 10, 0b1011001000)], fields := [('m', [(3, 3)]), ('d', [(0, 3)])],
+    ins := fun f => .sxth (r (f 'd')) (r (f 'm')) },
+  { pat := "1011001001mmmddd", n := 16, fixed := [(6, 10, 0b1011001001)], fields := [('m', [(3, 3)]), ('d', [(0, 3)])],
+    ins := fun f => .sxtb (r (f 'd')) (r (f 'm')) },
+  { pat := "1011001010mmmddd", n := 16, fixed := [(6, 10, 0b1011001010)], fields := [('m', [(3, 3)]), ('d', [(0, 3)])],
+    ins := fun f => .uxth (r (f 'd')) (r (f 'm')) },
+  { pat := "1011001011mmmddd", n := 16, fixed := [(6, 10, 0b1011001011)], fields := [('m', [(3, 3)]), ('d', [(0, 3)])],
+    ins := fun f => .uxtb (r (f 'd')) (r (f 'm')) },
+  -- registers = '0':M:'000000':list
+  { pat := "1011010mrrrrrrrr", n := 16, fixed := [(9, 7, 0b1011010)], fields := [('m', [(8, 1)]), ('r', [(0, 8)])],
+    ins := fun f => .push (set (f 'm' * 16384 + f 'r')),
+    unpred := fun f => f 'm' * 16384 + f 'r' == 0 },
+  -- CPSIE i: im = 0, CPSID i: im = 1
+  { pat := "10110110011i0010", n := 16, fixed := [(5, 11, 0b10110110011), (0, 4, 0b0010)], fields := [('i', [(4, 1)])],
+    ins := fun f => .cps (f 'i' == 0) }
+]
+
+/-- first halfword `10111…` -/
+def g23 : List Row := [
+  { pat := "1011101000mmmddd", n := 16, fixed := [(6, 10, 0b1011101000)], fields := [('m', [(3, 3)]), ('d', [(0, 3)])],
+    ins := fun f => .rev (r (f 'd')) (r (f 'm')) },
+  { pat := "1011101001mmmddd", n := 16, fixed := [(6, 10, 0b1011101001)], fields := [('m', [(3, 3)]), ('d', [(0, 3)])],
+    ins := fun f => .rev16 (r (f 'd')) (r (f 'm')) },
+  { pat := "1011101011mmmddd", n := 16, fixed := [(6, 10, 0b1011101011)], fields := [('m', [(3, 3)]), ('d', [(0, 3)])],
+    ins := fun f => .revsh (r (f 'd')) (r (f 'm')) },
+  -- registers = P:'0000000':list
+  { pat := "1011110prrrrrrrr", n := 16, fixed := [(9, 7, 0b1011110)], fields := [('p', [(8, 1)]), ('r', [(0, 8)])],
+    ins := fun f => .pop (set (f 'p' * 32768 + f 'r')),
+    unpred := fun f => f 'p' * 32768 + f 'r' == 0 },
+  { pat := "10111110iiiiiiii", n := 16, fixed := [(8, 8, 0b10111110)], fields := [('i', [(0, 8)])],
+    ins := fun f => .bkpt (f 'i' : Nat) },
+  { pat := "1011111100000000", n := 16, fixed := [(0, 16, 0b1011111100000000)], fields := [],
+    ins := fun _ => .nop },
+  { pat := "1011111100010000", n := 16, fixed := [(0, 16, 0b1011111100010000)], fields := [],
+    ins := fun _ => .yield },
+  { pat := "1011111100100000", n := 16, fixed := [(0, 16, 0b1011111100100000)], fields := [],
+    ins := fun _ => .wfe },
+  { pat := "1011111100110000", n := 16, fixed := [(0, 16, 0b1011111100110000)], fields := [],
+    ins := fun _ => .wfi },
+  { pat := "1011111101000000", n := 16, fixed := [(0, 16, 0b1011111101000000)], fields := [],
+    ins := fun _ => .sev }
+]
+
+/-- first halfword `11000…` -/
+def g24 : List Row := [
+  { pat := "11000nnnrrrrrrrr", n := 16, fixed := [(11, 5, 0b11000)], fields := [('n', [(8, 3)]), ('r', [(0, 8)])],
+    ins := fun f => .stm (r (f 'n')) (set (f 'r')) }
+]
+
+/-- first halfword `11001…` -/
+def g25 : List Row := [
+  { pat := "11001nnnrrrrrrrr", n := 16, fixed := [(11, 5, 0b11001)], fields := [('n', [(8, 3)]), ('r', [(0, 8)])],
+    ins := fun f => .ldm (r (f 'n')) (set (f 'r')) }
+]
+
+/-- first halfword `1101…` (UDF and SVC before the conditional branch) -/
+def g26 : List Row := [
+  { pat := "11011110iiiiiiii", n := 16, fixed := [(8, 8, 0b11011110)], fields := [('i', [(0, 8)])],
+    ins := fun f => .udf (f 'i' : Nat) },
+  { pat := "11011111iiiiiiii", n := 16, fixed := [(8, 8, 0b11011111)], fields := [('i', [(0, 8)])],
+    ins := fun f => .svc (f 'i' : Nat) },
+  -- B<c> (T1); cond 1110/1111 are the rows above
+  { pat := "1101cccciiiiiiii", n := 16, fixed := [(12, 4, 0b1101)], fields := [('c', [(8, 4)]), ('i', [(0, 8)])],
+    ins := fun f => .b (cond (f 'c')) (sx 9 (f 'i' * 2)) }
+]
+
+/-- first halfword `11100…` -/
+def g28 : List Row := [
+  -- B (T2)
+  { pat := "11100iiiiiiiiiii", n := 16, fixed := [(11, 5, 0b11100)], fields := [('i', [(0, 11)])],
+    ins := fun f => .b Cond.always (sx 12 (f 'i' * 2)) }
+]
+
+/-- the 16-bit encodings, grouped by the five leading bits -/
+def table16 : List Row :=
+  [g00, g01, g02, g03, g04, g05, g06, g07, g08, g09, g10, g11, g12, g13, g14, g15, g16, g17, g18, g19, g20, g21, g22, g23, g24, g25, g26, g28].flatten
+
+/-- the 32-bit encodings -/
+def table32 : List Row := [
+  { pat := "111100111000nnnn 10001000ssssssss", n := 32, fixed := [(20, 12, 0b111100111000), (8, 8, 0b10001000)], fields := [('n', [(16, 4)]), ('s', [(0, 8)])],
+    ins := fun f => .msr (sys (f 's')) (r (f 'n')),
+    unpred := fun f => f 'n' == 13 || f 'n' == 15 || (sysm (f 's')).isNone },
+  { pat := "1111001111101111 1000ddddssssssss", n := 32, fixed := [(12, 20, 0b11110011111011111000)], fields := [('d', [(8, 4)]), ('s', [(0, 8)])],
+    ins := fun f => .mrs (r (f 'd')) (sys (f 's')),
+    unpred := fun f => f 'd' == 13 || f 'd' == 15 || (sysm (f 's')).isNone },
+  -- option = SY
+  { pat := "1111001110111111 1000111101001111", n := 32, fixed := [(0, 32, 0b11110011101111111000111101001111)], fields := [],
+    ins := fun _ => .dsb },
+  { pat := "1111001110111111 1000111101011111", n := 32, fixed := [(0, 32, 0b11110011101111111000111101011111)], fields := [],
+    ins := fun _ => .dmb },
+  { pat := "1111001110111111 1000111101101111", n := 32, fixed := [(0, 32, 0b11110011101111111000111101101111)], fields := [],
+    ins := fun _ => .isb },
+  -- imm32 = imm4:imm12
+  { pat := "111101111111iiii 1010iiiiiiiiiiii", n := 32, fixed := [(20, 12, 0b111101111111), (12, 4, 0b1010)], fields := [('i', [(16, 4), (0, 12)])],
+    ins := fun f => .udfw (f 'i' : Nat) },
+  -- BL: S:I1:I2:imm10:imm11:'0'
+  { pat := "11110siiiiiiiiii 11j1kLLLLLLLLLLL", n := 32, fixed := [(27, 5, 0b11110), (14, 2, 0b11), (12, 1, 0b1)], fields := [('s', [(26, 1)]), ('i', [(16, 10)]), ('j', [(13, 1)]), ('k', [(11, 1)]), ('L', [(0, 11)])],
+    ins := fun f => .bl (sx 25 (f 's' * 16777216 + ibit (f 'j') (f 's') * 8388608 + ibit (f 'k') (f 's') * 4194304 + f 'i' * 4096 + f 'L' * 2)) }
+]
+
+def table : List Row := table16 ++ table32
+
+/-- a row's arithmetic reading is the reading of its diagram string -/
+def readsDiagram (rw : Row) : Bool := compile rw.pat.toList == (rw.n, rw.fixed, rw.fields)
 
 /-- the instruction word: halfwords concatenated, first halfword most significant -/
 def word : List Nat → Nat
@@ -188,10 +458,8 @@ def word : List Nat → Nat
   | h :: t => h * 65536 ^ t.length + word t
 
 def rowDecode (rw : Row) (w n : Nat) : Option (Option Instr) :=
-  let cs := rw.pat.toList
-  if width cs = n ∧ fits w cs n then
-    let f := fun c => field w c cs n 0
-    some (if rw.unpred f then none else some (rw.ins f))
+  if rw.n = n ∧ fits w rw.fixed then
+    some (if rw.unpred (fieldOf w rw.fields) then none else some (rw.ins (fieldOf w rw.fields)))
   else none
 
 def decodeIn : List Row → Nat → Nat → Option Instr
